@@ -210,6 +210,153 @@ theorem iterAll_exact (H : Hier) : ∀ (f : Nat) (c : Name) (out : List Name),
       | inside hr hb hreg hcov =>
         exact (hinv.done _ (reachSeen _ hr) _ hb).2.2 hreg _ hcov
 
+/-! ## The concealed view: exactly the members reachable through regions-as-single-nodes -/
+
+/-- members of level `c` the concealed view gets to: the head, and every member that is a view
+    successor (a region continues at its exiting block's targets) of a member it got to -/
+inductive ViewReach (H : Hier) (c : Name) : Name → Prop
+  | head {hd} : findHead H c = .ok hd → (H.getIn? c hd).isSome → ViewReach H c hd
+  | succ {x b ts t} : ViewReach H c x → H.getIn? c x = some b → viewTargets H b = .ok ts → t ∈ ts →
+      (H.getIn? c t).isSome → ViewReach H c t
+
+structure ViewInv2 (H : Hier) (c : Name) (queue seen out : List Name) : Prop where
+  sound : ∀ x ∈ out, ViewReach H c x
+  qreach : ∀ x ∈ queue, (H.getIn? c x).isSome → ViewReach H c x
+  done : ∀ x ∈ seen, ∀ b, H.getIn? c x = some b →
+    x ∈ out ∧ ∀ ts, viewTargets H b = .ok ts → ∀ t ∈ ts, t ∈ seen ∨ t ∈ queue
+
+theorem viewGo_inv2 (H : Hier) (c : Name) :
+    ∀ (g : Nat) (queue seen out result : List Name), ViewInv2 H c queue seen out →
+      viewGo H c g queue seen out = .ok result →
+      ∃ seen', ViewInv2 H c [] seen' result ∧ (∀ x ∈ seen, x ∈ seen') ∧ (∀ x ∈ queue, x ∈ seen') := by
+  intro g
+  induction g with
+  | zero => intro q s o r _ h; simp [viewGo] at h
+  | succ g ih =>
+    intro queue seen out result hinv h
+    cases queue with
+    | nil =>
+      simp only [viewGo, Except.ok.injEq] at h
+      subst h
+      exact ⟨seen, hinv, fun x hx => hx, by simp⟩
+    | cons name rest =>
+      simp only [viewGo] at h
+      split at h
+      · next hs =>
+        have hsm : name ∈ seen := by simpa [mem, List.contains_iff_mem] using hs
+        obtain ⟨s', h1, h2, h3⟩ := ih rest seen out result
+          ⟨hinv.sound, fun x hx => hinv.qreach x (List.mem_cons_of_mem _ hx), by
+            intro x hx b hb
+            obtain ⟨d1, d2⟩ := hinv.done x hx b hb
+            refine ⟨d1, fun ts hts t ht => ?_⟩
+            rcases d2 ts hts t ht with e | e
+            · exact Or.inl e
+            · rcases List.mem_cons.mp e with e2 | e2
+              · exact Or.inl (e2 ▸ hsm)
+              · exact Or.inr e2⟩ h
+        exact ⟨s', h1, h2, fun x hx => by
+          rcases List.mem_cons.mp hx with e | e
+          · exact e ▸ h2 name hsm
+          · exact h3 x e⟩
+      · next hs =>
+        have hns : name ∉ seen := by simpa [mem, List.contains_iff_mem] using hs
+        split at h
+        · next hnone =>
+          obtain ⟨s', h1, h2, h3⟩ := ih rest (name :: seen) out result
+            ⟨hinv.sound, fun x hx => hinv.qreach x (List.mem_cons_of_mem _ hx), by
+              intro x hx b hb
+              rcases List.mem_cons.mp hx with e | e
+              · subst e; simp [hnone] at hb
+              · obtain ⟨d1, d2⟩ := hinv.done x e b hb
+                refine ⟨d1, fun ts hts t ht => ?_⟩
+                rcases d2 ts hts t ht with e1 | e1
+                · exact Or.inl (List.mem_cons_of_mem _ e1)
+                · rcases List.mem_cons.mp e1 with e2 | e2
+                  · exact Or.inl (by simp [e2])
+                  · exact Or.inr e2⟩ h
+          exact ⟨s', h1, fun x hx => h2 x (List.mem_cons_of_mem _ hx), fun x hx => by
+            rcases List.mem_cons.mp hx with e | e
+            · exact h2 x (by simp [e])
+            · exact h3 x e⟩
+        · next b hb =>
+          have hreach : ViewReach H c name := hinv.qreach name (by simp) (by simp [hb])
+          split at h
+          · simp at h
+          · next ts hts =>
+            obtain ⟨s', h1, h2, h3⟩ := ih (rest ++ ts) (name :: seen) (out ++ [name]) result
+              ⟨by
+                 intro x hx
+                 rcases List.mem_append.mp hx with e | e
+                 · exact hinv.sound x e
+                 · simp only [List.mem_singleton] at e
+                   exact e ▸ hreach,
+               by
+                 intro x hx hmem
+                 rcases List.mem_append.mp hx with e | e
+                 · exact hinv.qreach x (List.mem_cons_of_mem _ e) hmem
+                 · exact ViewReach.succ hreach hb hts e hmem,
+               by
+                 intro x hx b' hb'
+                 rcases List.mem_cons.mp hx with e | e
+                 · subst e
+                   rw [hb] at hb'
+                   simp only [Option.some.injEq] at hb'
+                   subst hb'
+                   refine ⟨by simp, fun ts' hts' t ht => ?_⟩
+                   rw [hts] at hts'
+                   simp only [Except.ok.injEq] at hts'
+                   subst hts'
+                   exact Or.inr (List.mem_append.mpr (Or.inr ht))
+                 · obtain ⟨d1, d2⟩ := hinv.done x e b' hb'
+                   refine ⟨by simp [d1], fun ts' hts' t ht => ?_⟩
+                   rcases d2 ts' hts' t ht with e1 | e1
+                   · exact Or.inl (List.mem_cons_of_mem _ e1)
+                   · rcases List.mem_cons.mp e1 with e2 | e2
+                     · exact Or.inl (by simp [e2])
+                     · exact Or.inr (List.mem_append.mpr (Or.inl e2))⟩ h
+            exact ⟨s', h1, fun x hx => h2 x (List.mem_cons_of_mem _ hx), fun x hx => by
+              rcases List.mem_cons.mp hx with e | e
+              · exact h2 x (by simp [e])
+              · exact h3 x (List.mem_append.mpr (Or.inl e))⟩
+
+/-- **The concealed view, exactly** (every hierarchy): whenever the model of
+    `region_view_iterator` answers it yields exactly the members of the level reachable from the
+    head with regions as single nodes — every yielded item is the head or a view successor of a
+    yielded item, and nothing so reachable is missing. -/
+theorem viewIter_exact (H : Hier) (c : Name) (out : List Name) (h : viewIter H c = .ok out) :
+    ∀ x, x ∈ out ↔ ViewReach H c x := by
+  unfold viewIter at h
+  cases hh : findHead H c with
+  | error e => simp [hh, bind, Except.bind] at h
+  | ok hd =>
+    simp only [hh, bind, Except.bind] at h
+    obtain ⟨s', hinv, _, hq⟩ := viewGo_inv2 H c _ [hd] [] [] out
+      ⟨by simp, by
+        intro x hx hmem
+        simp only [List.mem_singleton] at hx
+        subst hx
+        exact ViewReach.head hh hmem, by simp⟩ h
+    intro x
+    refine ⟨hinv.sound x, fun hx => ?_⟩
+    have seenAll : ∀ y, ViewReach H c y → y ∈ s' := by
+      intro y hy
+      induction hy with
+      | head h1 _ =>
+        rw [hh] at h1
+        simp only [Except.ok.injEq] at h1
+        subst h1
+        exact hq _ (by simp)
+      | succ _ hb hts ht _ ihy =>
+        rcases (hinv.done _ ihy _ hb).2 _ hts _ ht with e | e
+        · exact e
+        · simp at e
+    have hmem : (H.getIn? c x).isSome := by
+      cases hx with
+      | head _ h2 => exact h2
+      | succ _ _ _ _ h5 => exact h5
+    obtain ⟨b, hb⟩ := Option.isSome_iff_exists.mp hmem
+    exact (hinv.done x (seenAll x hx) b hb).1
+
 /-! Non-vacuity: on a two-level hierarchy the model answers, and the answer is what the theorem
 says (head `0`, the region, the block inside it, then `2`). -/
 def okH2 : Hier := [
